@@ -62,6 +62,38 @@ def run_chunks(det, chunks, as_array=True, on_step=None, final_flush=False):
     return d
 
 
+def mixed_representations(chunks):
+    """One container kind per chunk, a pure function of the chunks: float64 array, int64 array (whole numbers only),
+    python list (of ints if whole), float32 array (only if every value is exactly representable) or pandas Series."""
+    import pandas as pd
+    out = []
+    for k, c in enumerate(chunks):
+        whole = all(float(x).is_integer() and abs(x) < 2 ** 31 for x in c)
+        f32 = all(float(np.float32(x)) == x for x in c)
+        kind = (k + len(c) + int(abs(c[0]) * 4) % 7) % 5
+        if kind == 1 and whole:
+            out.append(("int64", np.array([int(x) for x in c], dtype=np.int64)))
+        elif kind == 2:
+            out.append(("list", [int(x) for x in c] if whole else list(c)))
+        elif kind == 3 and f32:
+            out.append(("float32", np.array(c, dtype=np.float32)))
+        elif kind == 4:
+            out.append(("series", pd.Series(np.array(c, dtype=np.float64))))
+        else:
+            out.append(("float64", np.array(c, dtype=np.float64)))
+    return out
+
+
+def run_chunks_mixed(det, chunks):
+    """Feed the chunks in mixed container kinds / dtypes (a chunked file read infers int for a whole-numbered block)."""
+    d = make(det)
+    kinds = []
+    for kind, obj in mixed_representations(chunks):
+        kinds.append(kind)
+        d.process(obj)
+    return d, kinds
+
+
 def run_whole(det, sig):
     return run_chunks(det, [sig])
 
